@@ -241,6 +241,7 @@ def build():
                   ("subscriptions of the test and of the chosen branch",
                    "result[1] == SUBS(node.test) + (SUBS(node.body) if truth(PY(node.test)) else SUBS(node.orelse))")],
          raises=ERR, modifies=[])
+    C.finite_checks.append(common.native_demo_check("c16_computed_index.py", "a computed index (a[i], a[-1], players[machine.idx].score) evaluates like Python"))
     C.finite_checks.append(common.native_demo_check("c16_tuple_expression.py", "tuple expressions evaluate like Python, "
                                                                              "with and without subscription"))
     C.finite_checks.append(common.native_demo_check(
